@@ -309,6 +309,119 @@ def _recursive_sign_checks(it, ctx):
 c.check("recursive", _recursive_sign_checks)
 c.setup = lambda it, env: setattr(it, "sign_envelope_call_site", _sign_envelope_at_call_site)
 
+# ------------------------------------------------------------------------------------------------
+# The command entry point cmd_sign.main (single-level): the envelope that is signed is the one decoded from the INPUT FILE, every
+# named argument lands in ITS parameter of sign_envelope (passed by position in single_level_sign), the output file holds exactly the
+# encoding of what sign_envelope returned, and when signing refuses (error action, key mismatch) NOTHING is written.
+# _import_signer is the assumed plug-in loading; Signer.sign_envelope is summarised by its C04 contract at the call site.
+def _main_input(it, env):
+    from pyvc.values import VTag, VDict, DEntry, VInt
+    from pyvc import cbor
+    d = VDict()
+    d.entries[2] = DEntry(2, env.lookup("W"))
+    d.entries[3] = DEntry(3, env.lookup("M"))
+    d.entries["#payload"] = DEntry("#payload", env.lookup("PAY"))
+    env.set("INPUT", cbor.enc(it, VTag(VInt(107), d)))
+    it.sign_envelope_call_site = _sign_envelope_at_call_site
+    it.call_site_summaries = {"RecursiveSigner.__init__": _rs_init_at_call_site, "RecursiveSigner.recursive_sign": _rs_sign_at_call_site}
+
+
+def _rs_init_at_call_site(it, c_, fi, args, kwargs):
+    """RecursiveSigner(envelope, configuration, name) at the call site in cmd_sign.recursive_sign: constructs or raises ValueError (its own
+    contract above says what it constructs); the arguments are recorded."""
+    from pyvc.interp import Env
+    from pyvc.values import NONE
+    env = Env(None, None)
+    it.bind_args(fi, args, kwargs, env)
+    it.assumptions_used.add("RecursiveSigner.__init__ / recursive_sign at the call site in cmd_sign.recursive_sign: their own contracts (construct or ValueError; "
+                            "a tagged envelope or SignerError / ValueError)")
+    if it.choose(2, "recursive_signer_init_outcome") == 1:
+        it.raise_(ValueError, "configuration refused")
+    it.trace.append(("call", "RecursiveSigner.__init__", dict(env.vars), NONE))
+    return NONE
+
+
+def _rs_sign_at_call_site(it, c_, fi, args, kwargs):
+    from pyvc.interp import Env
+    from pyvc.values import VTag, VDict, DEntry, VInt
+    from pyvc import clauses
+    env = Env(None, None)
+    it.bind_args(fi, args, kwargs, env)
+    k = it.choose(3, "recursive_sign_outcome")
+    if k == 1:
+        it.raise_(clauses.resolve_exception(it, "SignerError"), "already signed (action error)")
+    if k == 2:
+        it.raise_(ValueError, "key refused / dependency missing")
+    d = VDict()
+    d.entries[2] = DEntry(2, it.fresh_bytes("signed_wrapper"))
+    d.entries[3] = DEntry(3, it.fresh_bytes("manifest_out"))
+    res = VTag(VInt(107), d)
+    it.trace.append(("call", "RecursiveSigner.recursive_sign", dict(env.vars), res))
+    return res
+
+
+c = Contract(FC, "main", ["C09", "C04"])
+for g_ in ("W", "M", "PAY"):
+    c.ghost(g_, Bytes())
+c.param("sign_subcommand", Const("single-level"))
+c.param("input_envelope", PathStr(exists=True))
+c.param("output_envelope", PathStr())
+c.param("sign_script", Str())
+c.param("key_name", Str())
+c.param("key_id", Int(0, 2 ** 32 - 1))
+c.param("alg", EnumT(FB, "SuitSignAlgorithms"))
+c.param("context", Str())
+c.param("kms_script", Str())
+c.param("already_signed_action", EnumT(FB, "SignatureAlreadyPresentActions"))
+c.param("configuration", PathStr(exists=True))
+c.variants = [("single-level", {}), ("recursive", {"sign_subcommand": Const("recursive")})]
+c.call_by_keyword = True
+c.setup = _main_input
+c.requires("input_file_holds_the_envelope", "FILE(input_envelope) == INPUT")
+c.requires("output_is_another_file", "input_envelope != output_envelope")
+
+
+def _main_checks(it, ctx):
+    from pyvc import cbor
+    calls = [t for t in it.trace if t[0] == "call" and t[1] == "Signer.sign_envelope"]
+    if ctx.outcome != "return":
+        # a refusal (SignerError for the error action, ValueError for a refused key, ...) writes no output - nor any other file
+        return [("a_refusal_writes_no_output", z3.BoolVal(len(it.fs.log) == 0))]
+    if ctx.arg("sign_subcommand").conc == "recursive":
+        inits = [t for t in it.trace if t[0] == "call" and t[1] == "RecursiveSigner.__init__"]
+        runs = [t for t in it.trace if t[0] == "call" and t[1] == "RecursiveSigner.recursive_sign"]
+        jl = [t for t in it.trace if t[0] == "json.load"]
+        goals = [("one_recursive_signer_built_and_run_once", z3.BoolVal(len(inits) == 1 and len(runs) == 1 and len(jl) == 1))]
+        if len(inits) == 1 and len(runs) == 1 and len(jl) == 1:
+            a = inits[0][2]
+            goals.append(("signs_the_envelope_of_the_input_file", cbor.enc(it, a["envelope"]).e == ctx.arg("INPUT").e if hasattr(a["envelope"], "value") else z3.BoolVal(False)))
+            goals.append(("configuration_is_read_from_the_named_file", z3.And((jl[0][1] if z3.is_expr(jl[0][1]) else it.stubs.path_term(it, jl[0][1])) == it.stubs.path_term(it, ctx.arg("configuration")), z3.BoolVal(a["envelope_json"] is jl[0][3]))))
+            goals.append(("the_signer_that_was_configured_is_the_one_run", z3.BoolVal(runs[0][2]["self"] is a["self"])))
+            goals.append(("output_file_holds_the_signed_envelope", ctx.eval("FILE(output_envelope)").e == cbor.enc(it, runs[0][3]).e))
+            goals.append(("input_file_untouched", ctx.eval("FILE(input_envelope)").e == ctx.arg("INPUT").e))
+        return goals
+    goals = [("signed_exactly_once", z3.BoolVal(len(calls) == 1))]
+    if len(calls) != 1:
+        return goals
+    a = calls[0][2]
+    inp = a["input_envelope"]
+    goals.append(("signs_the_envelope_of_the_input_file", cbor.enc(it, inp).e == ctx.arg("INPUT").e if hasattr(inp, "value") else z3.BoolVal(False)))
+    same = lambda x, y: z3.BoolVal(x is y) if not hasattr(x, "e") or not hasattr(y, "e") else x.e == y.e  # noqa: E731
+    for formal, actual in (("key_name", "key_name"), ("key_id", "key_id"), ("algorithm", "alg"), ("context", "context"), ("kms_script", "kms_script"),
+                           ("already_signed_action", "already_signed_action")):
+        goals.append((f"{actual}_reaches_its_parameter", same(a[formal], ctx.arg(actual))))
+    goals.append(("output_file_holds_the_signed_envelope", ctx.eval("FILE(output_envelope)").e == cbor.enc(it, calls[0][3]).e))
+    goals.append(("input_file_untouched", ctx.eval("FILE(input_envelope)").e == ctx.arg("INPUT").e))
+    return goals
+
+
+c.check("entry", _main_checks)
+c.raises("SignerError")
+c.raises("ValueError")
+c.raises("FileNotFoundError")
+c.raises("json.JSONDecodeError")
+c.raises("TypeError")  # json.JSONDecodeError re-raised with one argument by cmd_sign.recursive_sign (invalid configuration file; not a property clause)
+
 # ================================================================================================
 # B — bounded stand-in
 # ================================================================================================
